@@ -269,6 +269,24 @@ def run(prog: Program, chk: Check):
         else:
             Q.decide(universal, fkey(f, "universal"), where(f), "decides element-wise / by delegation", f"{f.qual} examines no element of `{p}`")
 
+    # ---- B bound object and private name come from the same descriptor -----------------------------------------------------
+    B = chk.rule("C09-B", "getattr/setattr on a message through `<d>._bound_obj` or in `<d>`'s own methods names the attribute by the same descriptor's `_private_name`", 4,
+                 "reading the source array of `m.b = m.a` under the *destination's* private name copies b onto itself: the value read back is not the value assigned")
+    nb = 0
+    for f in m.functions.values():
+        for c in calls_in(f.node):
+            if not (isinstance(c.func, ast.Name) and c.func.id in ("getattr", "setattr") and len(c.args) >= 2):
+                continue
+            o, a = c.args[0], c.args[1]
+            if not (isinstance(a, ast.Attribute) and a.attr == "_private_name"):
+                continue
+            if isinstance(o, ast.Attribute) and o.attr == "_bound_obj":
+                nb += 1
+                B.decide(norm(o.value) == norm(a.value), fkey(f, c), where(f, c), f"`{norm(o)}` read/written under `{norm(a)}` of the same descriptor",
+                         f"{f.qual}: `{norm(c)[:80]}` accesses the object bound to `{norm(o.value)}` under the private name of `{norm(a.value)}` (another field)")
+    if nb < 4:
+        raise AnalysisError(f"anchor vanished: expected >= 4 accesses through <descriptor>._bound_obj in validators.py, found {nb}")
+
     # ---- D domain predicate at every normal exit of validate_one ------------------------------------------------
     D = chk.rule("C09-D", "every normal exit of validate_one implies the field's domain predicate (own ctype, or right Python type within range / length / ASCII)", 6,
                  "a value that passes validate_one outside the domain is stored (wrapped by ctypes) instead of refused")
